@@ -218,6 +218,7 @@ APPENDERS = '''
 //@   modifies b
 
 //@ func notMandatory(b, pre, v)
+//@   inline mandatory
 //@   modifies b
 '''
 
